@@ -366,11 +366,17 @@ func c14(r *ev.Result, tier string) {
 	r.Sample(4, cases[len(cases)/2])
 	r.Sample(4, cases[len(cases)-1])
 	r.Sample(4, c14Case{N: 65544, FD: "stdout", ReadR: 8, Input: "empty", Status: 0})
+	/* End to end through simpleshell.Go against a slow HTTPS server. */
+	c14GoSeam(r)
 	r.Assume("kernel pipe semantics and process reaping are trusted; the schedule axis is reduced to one owned choice (how much was read when the child is gone or blocked) plus an optional pause")
 	r.Assume("EOF versus an error as the terminal condition of Output() after all bytes is not fixed by the statement; both are accepted")
 }
 
 func c14Replay(kind string, raw json.RawMessage) int {
+	if "c14go" == kind {
+		fmt.Println("findings of the end-to-end seam are replayed by re-running ./run C14 quick (it takes a second)")
+		return 2
+	}
 	var c c14Case
 	if err := json.Unmarshal(raw, &c); nil != err {
 		return 2
